@@ -168,6 +168,23 @@ theorem pollServer_idle (C : Consts) (sizes : Nat → Nat) (fuel : Nat) (s : S) 
   | zero => rfl
   | succ f => simp only [pollServer, iter_none_of_idle C sizes s h]
 
+/-- a poll of `a + b` iterations is a poll of `a` iterations followed by one of `b`: a poll during which something
+    arrives is, for the model, two `run` events with the arrival between them -/
+theorem pollServer_add (C : Consts) (sizes : Nat → Nat) : ∀ (a b : Nat) (s : S),
+    pollServer C sizes (a + b) s = pollServer C sizes b (pollServer C sizes a s) := by
+  intro a
+  induction a with
+  | zero => intro b s; simp [pollServer]
+  | succ a ih =>
+    intro b s
+    rw [Nat.add_right_comm]
+    simp only [pollServer]
+    cases h : iter C sizes s with
+    | none =>
+      simp only []
+      exact (pollServer_idle C sizes b s (idle_of_iter_none C sizes s h)).symm
+    | some s' => simp only []; exact ih b s'
+
 /-! ### an event that wakes nobody leaves the server with nothing to do -/
 
 theorem any_id_false {cs : List Conn} {id : Nat} (h : cs.any (·.id == id) = false) (c : Conn) (hc : c ∈ cs) : c.id ≠ id := by
